@@ -208,6 +208,17 @@ class World:
                 for m in self.measurement_ids()[:2]:
                     r.derivative(self.objs[m])
             return None
+        if st[0] == "poison":
+            # an unrelated calculation whose derivative raises (0 ** -1): whatever it leaves behind in the library
+            # must not affect later results
+            try:
+                with warnings.catch_warnings():
+                    warnings.simplefilter("ignore")
+                    z = qq.Measurement(0.0, 0.125)
+                    (z ** -1).derivative(z)
+            except Exception:  # noqa
+                pass
+            return None
         if st[0] == "meas":
             m = qq.Measurement(st[1], st[2])
             return self._register(m, ("meas", float(st[1]), float(st[2])))
@@ -302,6 +313,8 @@ def gen_program(rng, n_meas=None, n_ops=None, rational_only=False, allow_pairs=T
         kinds.append("meas")
     tries = 0
     made = 0
+    if rng.random() < 0.12:
+        steps.append(["poison"])
     while made < n_ops and tries < 200:
         tries += 1
 
@@ -429,10 +442,21 @@ def gen_program(rng, n_meas=None, n_ops=None, rational_only=False, allow_pairs=T
             if rng.random() < 0.5:
                 r = rng.choice([0.5, -0.5, 0.25, -0.75, 1.0, -1.0, 0.125, 0.875])
                 if rowsum.get(ms[a], 0) + abs(r) <= 1 and rowsum.get(ms[b], 0) + abs(r) <= 1:
+                    if rng.random() < 0.3:
+                        # the pair is first given another correlation, named in the OTHER order: the later call replaces it
+                        corr.append([ms[b], ms[a], rng.choice([0.5, -0.5, 0.25, -0.25, 0.75])])
                     corr.append([ms[a], ms[b], r])
                     rowsum[ms[a]] = rowsum.get(ms[a], 0) + abs(r)
                     rowsum[ms[b]] = rowsum.get(ms[b], 0) + abs(r)
     return steps, corr
+
+
+def effective_corr(corr):
+    """the correlations in force after all calls: per unordered pair the LAST one"""
+    last = {}
+    for i, j, r in corr:
+        last[(min(i, j), max(i, j))] = [i, j, r]
+    return list(last.values())
 
 
 def execute(steps, corr, corr_after=False):
@@ -478,7 +502,7 @@ def coq_obj(m, I):
 def coq_case(model, corr, observations, I, with_sources=True):
     """model: list oldest first"""
     objs = coq_list([coq_obj(m, I) for m in reversed(model)])
-    tbl = coq_list(["({}%nat, {}%nat, {})".format(i, j, qlit(r)) for i, j, r in corr])
+    tbl = coq_list(["({}%nat, {}%nat, {})".format(i, j, qlit(r)) for i, j, r in effective_corr(corr)])
     vscale = max([1.0] + [abs(o["value"]) for o in observations] + [abs(m[1]) for m in model if m[0] == "meas"])
     dscale = max([1.0] + [abs(d) for o in observations for _, d in o["derivs"]])
     obs = coq_list(["({}%nat, {}, {}, {}, {})".format(
@@ -671,7 +695,7 @@ def oracle_object(model, corr, obs, derivs_only=False):
         return "value {} but the formula evaluated at the central values gives {}".format(obs["value"], f0)
     srcs = reachable_measurements(model, k)
     rho = {}
-    for i, j, r in corr:
+    for i, j, r in effective_corr(corr):
         rho[(min(i, j), max(i, j))] = r
     dref = {}
     for m, d in obs["derivs"]:
